@@ -126,7 +126,7 @@ func c01Eval(cs *c01Case, ts *tinyStats, bs *bnStats) (got, want string, err err
 		if cs.Kind == "full-small" {
 			f = ref.NewField(big.NewInt(cs.P))
 		}
-		shape, asg := cs.B.circuits()
+		shape, asg := cs.B.reduced(f).circuits()
 		e := gad.Solved(shape, asg, f.P)
 		got = "reject"
 		if e == nil {
